@@ -30,9 +30,6 @@ def _contains_meet(e: ast.AST, a: str, b: str) -> bool:
 
 
 def check(ck: Checker) -> None:
-    from . import round4 as _r4
-
-    _r4.hashinfo_identity(ck, "C04.guard")
     prog, res = ck.prog, ck.res
     ck.decided = [
         "C04.order: inside one directory's iteration the directory object is added only after that directory's files were added, never before",
@@ -169,6 +166,10 @@ def check(ck: Checker) -> None:
 
     # ----------------------------------------------------------------- push
     _check_closed_requests(ck, "C04.push")
+    from . import round4 as _r4
+
+    _r4.hashinfo_identity(ck, "C04.guard")
+
 
 
 def reported_rule(ck: Checker, m: TransferModel, rule: str):
